@@ -5,7 +5,7 @@ The probe is a tiny Python script written into the shard's scratch directory.  O
     <python> -S -E <probe.py> <tagdir> <spec-json> [args...]
 
 1. appends one line to <tagdir>/starts (O_APPEND; one line per *execution* — the exactly-once witness),
-2. appends to <tagdir>/dump.jsonl what it observed: selected os.environb values, cwd, argv (hex-encoded
+2. appends to <tagdir>/dump.jsonl what it observed: the whole os.environb, cwd, argv (hex-encoded
    bytes so that nothing is lost in transport),
 3. optionally sleeps, writes a deterministic payload to stdout (and a text to stderr), sleeps again,
 4. appends one line to <tagdir>/ends and exits with the requested status.
@@ -58,6 +58,7 @@ except OSError:
     cwd = None
 app("dump.jsonl", json.dumps({
     "env": {k: os.environb[k.encode()].hex() if k.encode() in os.environb else None for k in spec.get("keys", [])},
+    "allenv": {k.hex(): v.hex() for k, v in os.environb.items()},
     "cwd": cwd, "argv": [os.fsencode(a).hex() for a in sys.argv[3:]]}) + "\n")
 if spec.get("sleep_before"):
     time.sleep(spec["sleep_before"])
@@ -106,6 +107,8 @@ def read_tag(tagdir: str) -> dict:
             "env": {k: (None if v is None else bytes.fromhex(v).decode("utf-8", errors="surrogateescape")) for k, v in d["env"].items()},
             "cwd": None if d["cwd"] is None else bytes.fromhex(d["cwd"]).decode("utf-8", errors="surrogateescape"),
             "argv": [bytes.fromhex(a).decode("utf-8", errors="surrogateescape") for a in d["argv"]],
+            "allenv": {bytes.fromhex(k).decode("utf-8", errors="surrogateescape"): bytes.fromhex(v).decode("utf-8", errors="surrogateescape")
+                       for k, v in d.get("allenv", {}).items()},
         })
     return {"starts": len(lines("starts")), "ends": len(lines("ends")), "dumps": dumps}
 
